@@ -12,6 +12,11 @@ def hook_commits():
         return []
 
 CHECKS = {
+ "C16": dict(
+    category="exploration", design_ref="DESIGN.md §4 C16",
+    technique="Go race detector (go build -race) over all concurrent workloads with seeded schedule perturbation; race log parsed, deduplicated and classified; per-group unsynchronised scratch memory as happens-before detector",
+    text="Every batch runs under the Go race detector: the C01/C02 workload (4 worker/channel configurations), the C03 Shutdown stress, the C04 and C08 concurrent handler workloads, C11 store histories (badgerstore, mockstore), C13 queries racing with index maintenance, C14 service histories (events from index task goroutines), C15 query events on a real NATS connection, and a combined 'everything at once' program (requests on many resources, With*, Reset/Token*, a store writer on a foreign goroutine feeding store.Handler and store.QueryHandler, query events answered with query requests, index queries, MemLogger/StdLogger with tracing, Shutdown while running, restart). GORACE halt_on_error=0 with a log path; reports are parsed, deduplicated by the pair of innermost non-runtime frames and classified: access in a go-res frame or on the per-group scratch memory = violation, harness-only = inconclusive, dependency-only = note.",
+    note="Client programs stay within the documented threading rules; one store writer goroutine in the combined program (a lost wake-up in the taskqueue dependency with two blocked producers is outside the property set, see DESIGN.md)."),
  "C20": dict(
     category="exploration", design_ref="DESIGN.md §4 C20",
     technique="reference fold of applied events compared with get responses, Value(), raw stored bytes, listener arguments and query collection results after every event; close/reopen comparison",
